@@ -1293,6 +1293,13 @@ pub fn cases(tier: Tier) -> Vec<Case> {
             add("oid", "OBJECT IDENTIFIER", &format!("Oid2 ::= OBJECT IDENTIFIER\nOid3 ::= Oid2\n{root} Oid3 ::= {{ 1 2 }}"), format!("{{ {root} 3 }}"), Val::Oid(vec![1, 2, 3]), format!("reference-to-value-of-twice-named-oid-type|referenced-sorts-{}", if root.starts_with('a') { "first" } else { "last" }));
             add("oid", "Oid3", &format!("Oid2 ::= OBJECT IDENTIFIER\nOid3 ::= Oid2\n{root} Oid3 ::= {{ 1 2 }}"), format!("{{ {root} 3 }}"), Val::Oid(vec![1, 2, 3]), format!("reference-to-value-of-twice-named-oid-type|same-type|referenced-sorts-{}", if root.starts_with('a') { "first" } else { "last" }));
         }
+        // a leading reference to a value that itself has an arc given by an INTEGER value reference (both resolutions meet:
+        // the copied arcs and the reference among them), plain and through a type reference, referenced value sorting first / last
+        for root in ["a-root", "z-root"] {
+            for (ty, tl) in [("OBJECT IDENTIFIER", "plain"), ("Oid2", "typeref")] {
+                add("oid", ty, &format!("Oid2 ::= OBJECT IDENTIFIER\nsix INTEGER ::= 6\n{root} {ty} ::= {{ iso 3 six 1 }}"), format!("{{ {root} 4 }}"), Val::Oid(vec![1, 3, 6, 1, 4]), format!("leading-reference-to-value-with-integer-reference-arc|{tl}|referenced-sorts-{}", if root.starts_with('a') { "first" } else { "last" }));
+            }
+        }
         // name(number) arcs keep their number whatever values of that name exist (the name is only a label)
         add("oid", "OBJECT IDENTIFIER", "sub INTEGER ::= 1\nversion INTEGER ::= 9", "{ iso standard 8571 sub(0) version(2) }".into(), Val::Oid(vec![1, 0, 8571, 0, 2]), "name(number)-with-value-of-that-name".into());
         add("oid", "OBJECT IDENTIFIER", "sub OBJECT IDENTIFIER ::= { 2 5 }", "{ 1 3 sub(7) 4 }".into(), Val::Oid(vec![1, 3, 7, 4]), "name(number)-with-oid-value-of-that-name".into());
